@@ -94,6 +94,18 @@ class PassWrapper(KDWrapper):
     """a KDWrapper that overrides nothing"""
 
 
+def plain_identity(x):
+    """a plain callable used as a transform (no KDTransform: nothing to seed)"""
+    return x
+
+
+class PlainCallable:
+    """a plain callable object used as a transform (like a torchvision transform)"""
+
+    def __call__(self, x):
+        return x
+
+
 class Probe(KDStochasticTransform):
     """identity on x; publishes one raw 63-bit draw of its generator per call"""
 
@@ -172,6 +184,8 @@ def build_tree(node):
         return H.build_composition(node)
     import kappadata.transforms as kdt
     t = node["t"]
+    if t == "plain":
+        return plain_identity
     if t == "probe":
         return Probe(node["tag"])
     if t == "semseg_probe":
@@ -292,7 +306,19 @@ def build_collator(c):
     raise ValueError(c)
 
 
-def build_dataset(node):
+def build_dataset(node, cache=None):
+    """cache: nodes carrying a "rid" are built once per stack and shared by every chain that names them"""
+    cache = {} if cache is None else cache
+    rid = node.get("rid")
+    if rid is not None and rid in cache:
+        return cache[rid]
+    ds = _build_dataset(node, cache)
+    if rid is not None:
+        cache[rid] = ds
+    return ds
+
+
+def _build_dataset(node, cache):
     import kappadata.wrappers as kw
     from kappadata.datasets.kd_concat_dataset import KDConcatDataset
     from kappadata.datasets.kd_subset import KDSubset
@@ -301,8 +327,8 @@ def build_dataset(node):
         cols = [build_collator(c) for c in node.get("collators", [])]
         return Root(node["n"], node["T"], node["data_seed"], onehot=node.get("onehot", False), collators=cols or None)
     if k == "concat":
-        return KDConcatDataset([build_dataset(ch) for ch in node["children"]])
-    child = build_dataset(node["child"])
+        return KDConcatDataset([build_dataset(ch, cache) for ch in node["children"]])
+    child = build_dataset(node["child"], cache)
     if k == "xt":
         return kw.XTransformWrapper(dataset=child, transform=build_tree(node["tree"]))
     if k == "mv":
@@ -310,6 +336,8 @@ def build_dataset(node):
         configs = []
         for c in node["configs"]:
             t = build_tree(c["tree"]) if c.get("tree") is not None else None
+            if c.get("plain"):
+                t = plain_identity if c["plain"] == "fn" else PlainCallable()
             form = c.get("form", "config")
             if t is None:
                 configs.append(c["n"] if form == "int" else dict(n_views=c["n"]))
@@ -374,15 +402,16 @@ def build_stack(top, ship=False):
     """top node -> Built. Global NumPy RNG is consumed by the constructors (by design of the library); the caller
     decides under which global seed this happens."""
     from kappadata.wrappers import ModeWrapper
+    cache = {}
     if top["k"] == "mode":
-        ds = ModeWrapper(build_dataset(top["child"]), mode=top["mode"], return_ctx=top.get("return_ctx", False))
+        ds = ModeWrapper(build_dataset(top["child"], cache), mode=top["mode"], return_ctx=top.get("return_ctx", False))
         return Built(ds, _collate_for(ds, top, ship))
     if top["k"] == "interleaved":
         from torch.utils.data import SequentialSampler
         from kappadata.samplers.interleaved_sampler import InterleavedSampler, InterleavedSamplerConfig
         parts = []
         for ch in top["children"]:
-            ds = ModeWrapper(build_dataset(ch["child"]), mode=ch["mode"], return_ctx=ch.get("return_ctx", False))
+            ds = ModeWrapper(build_dataset(ch["child"], cache), mode=ch["mode"], return_ctx=ch.get("return_ctx", False))
             parts.append((ds, _collate_for(ds, ch, ship)))
         B = top["batch_size"]
         sampler = InterleavedSampler(
